@@ -5,11 +5,12 @@ PROPERTY = {
     'extra': ['bounded.c17_resolve.run'],
     'contract_modules': ['util_import'],
     'functions': ['xdoctest.utils.util_import:normalize_modpath', 'xdoctest.utils.util_import:split_modpath',
-                  _S + '_isvalid', _S + 'check_dpath',
+                  _S + '_isvalid', _S + 'check_dpath', 'xdoctest.utils.util_import:_syspath_modname_to_modpath#search',
                   _P + '__init__', _P + '__enter__', _P + '__exit__', 'xdoctest.utils.util_import:_custom_import_modpath',
                   'xdoctest.utils.util_import:modpath_to_modname', 'xdoctest.utils.util_import:import_module_from_name'],
     'clauses': {
-        'P': ['check_dpath (one search-path entry): the package directory wins iff it exists, holds __init__.py and every directory between it '
+        'P': ['_syspath_modname_to_modpath, search loop (region; editable-install / egg-link fallbacks dropped): the entries of the search path are tried in order, the first entry for which check_dpath has a match decides, None exactly when no entry has one',
+              'check_dpath (one search-path entry): the package directory wins iff it exists, holds __init__.py and every directory between it '
               'and the entry holds __init__.py; otherwise the FIRST candidate file name, in order, that is a file with an unbroken __init__ '
               'chain; otherwise nothing (existential / universal clauses over the candidate list, loop invariant "earlier candidates fail")',
               '_isvalid == the recursive __init__-chain rule (loop invariant; terminates)',
